@@ -163,9 +163,11 @@ func genFlows(t *rapid.T) []aggh.FlowDef {
 }
 
 type stream struct {
-	start uint32
-	end   uint32
-	tot   [4]uint64
+	start  uint32
+	end    uint32
+	tot    [4]uint64
+	layout int
+	jumped bool
 }
 
 func genCase(t *rapid.T) Case {
@@ -183,19 +185,28 @@ func genCase(t *rapid.T) Case {
 		s := streams[k]
 		if s == nil {
 			// each reporting node has its own view of when the flow started
-			s = &stream{start: uint32(rapid.IntRange(900, 1000).Draw(t, "start")), end: 1000 + uint32(rapid.IntRange(0, 50).Draw(t, "e0"))}
+			s = &stream{start: uint32(rapid.IntRange(900, 1000).Draw(t, "start")), end: 1000 + uint32(rapid.IntRange(0, 50).Draw(t, "e0")),
+				layout: rapid.IntRange(0, 3).Draw(t, "layout")}
+			if rapid.IntRange(0, 9).Draw(t, "start0") == 0 {
+				s.start = 0 // an exporter that reports an unknown start time as 0
+			}
 			streams[k] = s
 		}
 		if used[fi] == nil {
 			used[fi] = map[uint32]bool{}
 		}
 		e := s.end + uint32(rapid.IntRange(1, 60).Draw(t, "de"))
+		if !s.jumped && rapid.IntRange(0, 19).Draw(t, "jump") == 0 {
+			// once per stream: a gap of about 2^31 seconds or more (all values stay below 2^32)
+			e = s.end + rapid.SampledFrom([]uint32{1<<31 - 1, 1 << 31, 1<<31 + 1, 3000000000}).Draw(t, "gap")
+			s.jumped = true
+		}
 		for used[fi][e] {
 			e++
 		}
 		used[fi][e] = true
 		s.end = e
-		r := aggh.Rec{Flow: fi, Side: side, Start: s.start, End: e, TCPState: rapid.SampledFrom([]string{"ESTABLISHED", "TIME_WAIT", "CLOSE", ""}).Draw(t, "tcp")}
+		r := aggh.Rec{Flow: fi, Side: side, Start: s.start, End: e, Layout: s.layout, TCPState: rapid.SampledFrom([]string{"ESTABLISHED", "TIME_WAIT", "CLOSE", ""}).Draw(t, "tcp")}
 		for i := range r.Tot {
 			switch rapid.IntRange(0, 5).Draw(t, "grow") {
 			case 0: // unchanged
